@@ -23,6 +23,16 @@ const (
 	c07Incon
 )
 
+// c07CountKey folds per-item outcome classes for the evidence counters.
+func c07CountKey(k string) string {
+	for _, p := range []string{"err:", "panic:"} {
+		if len(k) > len(p) && k[:len(p)] == p && k[len(p)] >= '0' && k[len(p)] <= '9' {
+			return p + "mapper-item"
+		}
+	}
+	return k
+}
+
 type c07Env struct {
 	m        *vk.M
 	baseline map[string]bool
@@ -54,6 +64,7 @@ func (e *c07Env) exec(idx int, sc *c07Sc) (st c07Status, okey string) {
 	e.rotate()
 	x := c07NewRun(idx, sc)
 	m.Current(x.desc())
+	ng0 := runtime.NumGoroutine()
 	res := make(chan c07Outcome, 1)
 	go func() { res <- x.call() }()
 	var o c07Outcome
@@ -91,7 +102,7 @@ func (e *c07Env) exec(idx int, sc *c07Sc) (st c07Status, okey string) {
 	}
 	x.releaseAll()
 	okey = x.key(o)
-	m.Count("outcome_"+okey, 1)
+	m.Count("outcome_"+c07CountKey(okey), 1)
 	m.Count("calls_"+sc.Entry, 1)
 
 	// ---- quiescence: user callbacks finished, generator returned, then no library goroutine may remain
@@ -112,6 +123,8 @@ func (e *c07Env) exec(idx int, sc *c07Sc) (st c07Status, okey string) {
 	}
 	leaked := func() map[string]string {
 		var gs map[string]string
+		// cheap pre-wait (decides nothing): goroutine count back to where it was before the call
+		vk.WaitUntil(100*time.Millisecond, func() bool { return cbDone() && runtime.NumGoroutine() <= ng0 })
 		vk.WaitUntil(c07LeakWatch, func() bool {
 			if !cbDone() {
 				return false
